@@ -392,6 +392,33 @@ func main() {
 		writeList(name, "case clauses of "+fn, rows)
 	}
 
+	// straight-line bodies: for the small wrappers around the cryptographic primitives (which the
+	// model transcribes statement by statement in CoseModel/Signers.lean) every top-level statement
+	// of the body, comments dropped, white space collapsed
+	bodyFns := []string{"ecdsaKeySigner.Sign", "ecdsaKeySigner.SignDigest", "ecdsaCryptoSigner.Sign", "ecdsaCryptoSigner.SignDigest",
+		"ecdsaVerifier.Verify", "ecdsaVerifier.VerifyDigest", "encodeECDSASignature", "decodeECDSASignature", "I2OSP", "OS2IP",
+		"rsaSigner.Sign", "rsaSigner.SignDigest", "rsaVerifier.Verify", "rsaVerifier.VerifyDigest",
+		"ed25519Signer.Sign", "ed25519Verifier.Verify", "Countersign0", "VerifyCountersign0",
+		"Algorithm.computeHash", "computeHash", "Sign1", "Sign1Untagged"}
+	for _, fn := range bodyFns {
+		fd := funcs[fn]
+		var rows []string
+		if fd == nil {
+			fmt.Fprintln(os.Stderr, "note: function not found:", fn)
+		} else {
+			for _, st := range fd.Body.List {
+				var sb bytes.Buffer
+				printer.Fprint(&sb, fset, st)
+				row := strings.Join(strings.Fields(sb.String()), " ")
+				if len(row) > 200 {
+					row = row[:200]
+				}
+				rows = append(rows, row)
+			}
+		}
+		writeList("body_"+strings.NewReplacer(".", "_").Replace(fn), "statements of "+fn, rows)
+	}
+
 	sort.Strings(panicSites)
 	sort.Strings(writeSites)
 	writeList("panicSites", "single-value type assertions, slice / index expressions and explicit panics, by (function, expression)", panicSites)
